@@ -17,6 +17,8 @@ ParentOK(e) ==
     /\ Has(e, "pm0") => FrameOK(e.pm0, e.pm1, e.vin)
     \* elements whose order looks only at a key: the multiset of *identities* is preserved, not only the keys
     /\ Has(e, "ida") => SameBag(e.ida, e.idafter)
+    \* copy-on-write representations (a shared ArcArray1 handle, a borrowing CowArray): the other handle keeps its contents
+    /\ Has(e, "other_ok") => e.other_ok = TRUE
 
 (* ---- verdict level ---- *)
 PartitionEvOK(e) ==
